@@ -492,6 +492,11 @@ func checkC12(c *Ctx, r *Report) {
 		r.Decide([]string{"C12.handle:", "C12.unknown-name:", "C12.forward:", "C12.len:"}, nil, "handles evaluated over operation sequences")
 	}
 	c.checkFanoutSemantics(r, ro, "C12.fanout-values")
+	if ro.WorkerOwner != nil && c.checkAsyncSemantics(r, ro, "C12.async-values") {
+		tn := ro.WorkerOwner.Obj().Name()
+		r.Decide([]string{"C12.verbatim:", "C12.no-retain:", "C12.every-ref:", "C12.ungated:"}, func(k string) bool { return strings.Contains(k, "(*"+tn+")") },
+			tn+" evaluated under scripted schedules: raw bytes reach every reference once, in call order and unchanged although the caller overwrites its buffer after Write returns")
+	}
 	lw := c.logType("LoggerWrapper")
 	if lw == nil {
 		r.Undecided("C12.anchor:handle", "", "LoggerWrapper not found")
